@@ -681,10 +681,11 @@ def cells_of(writes):
 class C06(Property):
     id = "C06"
     title = "draw() leaves the picture in place and the cursor on the line below it"
-    lean_props = ["TIV.C06.Props", "TIV.C06.Compose"]
+    lean_props = ["TIV.C06.Props", "TIV.C06.Compose", "TIV.C06.Scroll", "TIV.C06.Cover"]
     driver = DRIVER
-    partial = ("that real terminals behave like TIV.Common.Term; that the padded first frame meets the block "
-               "contract is a hypothesis discharged by C05 (pad_WB) / C01 for the renders")
+    partial = ("that real terminals behave like TIV.Common.Term; a first frame that scrolls the viewport is proved for "
+               "line-wise frames (block, kitty/iterm2 LINES) only - whole-image graphics written while part of the box is "
+               "below the viewport are outside the terminal model")
     quick_cases = int(os.environ.get("C06_CASES", "900"))
     thorough_cases = 14000
 
